@@ -45,6 +45,7 @@ type Engine struct {
 	layouts map[string][]Leaf
 
 	FloatSort string // "Real" default
+	ufArith   bool   // contract keyword "ufarith": symbolic float products / quotients are uninterpreted
 	seqAxioms bool   // emit the extensionality / access axioms of seq() (opt-in: `uses seq_ext`)
 }
 
